@@ -11,7 +11,7 @@
    All theorems quantify over ALL 64-bit arguments (no grid). *)
 From Coq Require Import ZArith.
 From Tetl Require Import Lib.Base C15.Types C15.ModelNum C15.SpecNum C15.ProofsGcd C15.ProofsRatio
-  C15.ProofsRatioLess C15.ProofsRatioMul.
+  C15.ProofsRatioLess C15.ProofsRatioMul C15.ProofsKernels.
 Local Open Scope Z_scope.
 
 (* etl::gcd on intmax_t (Euclid on the absolute values as uintmax_t, at most 130 iterations of the
@@ -19,6 +19,19 @@ Local Open Scope Z_scope.
 Theorem C15_gcd : forall m n, in64 m -> in64 n -> gcd_m m n = Some (wraps 64 (Z.gcd m n)).
 Proof. exact gcd_m_spec. Qed.
 Print Assumptions C15_gcd.
+
+(* the straight-line kernels ratio is assembled from, for every intmax_t argument: detail::sign is sgn
+   (and 1 at 0, where [ratio.ratio] does not care), etl::abs(long) is |v| and overflows (None: not a
+   constant expression) exactly at the most negative value, etl::gcd returns the [numeric.ops.gcd]
+   value wherever that is defined.  The run-time ops ksign / kabs / kgcd / kless execute these
+   functions of the headers on seeded 64-bit values (the template arguments of ratio must be constants). *)
+Theorem C15_ratio_kernels : forall v, in64 v ->
+  (forall s, sign_spec v = Some s -> sign_m v = s) /\ sign_m 0 = 1
+  /\ abs_m v = abs_spec v
+  /\ (abs_m v = None <-> v = - 2 ^ 63)
+  /\ forall n g, in64 n -> gcd_spec v n = Some g -> gcd_m v n = Some g.
+Proof. exact ratio_kernels. Qed.
+Print Assumptions C15_ratio_kernels.
 
 (* ratio<N, D>: for every pair of intmax_t arguments num/den are the [ratio.ratio] values, and the
    program is ill-formed exactly when D = 0 or |N| or |D| is not representable; the values are the
